@@ -196,6 +196,7 @@ pub fn eval(c: &Case) -> Eval {
     let lambda = c.lambda.0;
     ensure!(lambda > 0.0 && lambda.is_finite(), "generator error");
     let d = ExpRestricted01::new(lambda);
+    ensure!(d.get_lambda().to_bits() == lambda.to_bits(), "ExpRestricted01::new({:e}).get_lambda() returns {:e}", lambda, d.get_lambda());
     let run = |seed: u64, n: u64| -> Result<(f64, Option<String>), Fail> {
         let mut rng = Xoshiro256PlusPlus::seed_from_u64(seed);
         let mut xs: Vec<f64> = Vec::with_capacity(n as usize);
